@@ -234,9 +234,10 @@ def incEval (s : AccState) : AccState × Obs :=
   (s', s'.obs)
 
 /-- dimension-wise discipline (`initialize_evaluation_dimension_wise` resets `integral`, every component grid is
-recomputed) — but the per-interval volumes are ACCUMULATED by `add_volume` and only reset inside `refine()` -/
+recomputed); the per-interval volumes are accumulated by `add_volume` WITHIN one evaluation only:
+`init_evaluation_operation` starts every evaluation from `volume = None` -/
 def scrEval (s : AccState) : AccState × Obs :=
-  let s' := { s with acc := sumR s.areas, vols := List.zipWith (· + ·) s.vols s.areas }
+  let s' := { s with acc := sumR s.areas, vols := s.areas }
   (s', s'.obs)
 
 def incMachine : Machine AccState := ⟨incEval, accRefine true⟩
